@@ -943,7 +943,51 @@ func c19R4(p *Prog, r *Report) {
 			whyB = fmt.Sprintf("neighbour comparison rejects when first+n-next %+d >= 0: off by %d (groups overlapping by exactly one channel are accepted, or adjacent groups rejected)", c, c+1)
 		}
 	})
+	// the marking loop may sit in a helper that is called once per packet producer: the set of
+	// claimed channel numbers must then be one set for all the calls
+	perCall := ""
+	if !idiomA && !idiomB {
+		for _, h := range recvHelpers(as, 2) {
+			if h == as {
+				continue
+			}
+			hpc := NewPolyCtx(h)
+			Instrs(h, func(in ssa.Instruction) {
+				mu, ok := in.(*ssa.MapUpdate)
+				if !ok {
+					return
+				}
+				ph, ok := mu.Key.(*ssa.Phi)
+				if !ok {
+					return
+				}
+				isFirst := false
+				for _, e := range ph.Edges {
+					for _, sy := range hpc.Of(e).Symbols() {
+						if strings.HasSuffix(basePath(sy), "Firstchan") {
+							isFirst = true
+						}
+					}
+				}
+				if !isFirst {
+					return
+				}
+				mk, made := mu.Map.(*ssa.MakeMap)
+				if !made {
+					return
+				}
+				sites, _ := p.staticCallSites(h)
+				for _, site := range sites {
+					if site.Parent() == as && InLoop(site) && !InLoop(mk) {
+						perCall = fmt.Sprintf("the set of channel numbers already claimed is made at %s, inside %s, which is called at %s once for every packet producer: groups that arrive through different producers (two cards, two UDP ports) are never compared with each other, so overlapping groups are accepted and two streams get the same channel number, name and output file", p.InstrPos(mk), FuncName(h), p.InstrPos(site))
+					}
+				}
+			})
+		}
+	}
 	switch {
+	case perCall != "":
+		r.Bad("C19.R4", "Abaco: overlapping channel groups are rejected", p.Pos(as.Pos()), perCall)
 	case idiomA || idiomB:
 		r.OK("C19.R4", "Abaco: overlapping channel groups are rejected", p.Pos(as.Pos()), map[bool]string{true: "marking idiom over [first, first+n)", false: "sorted-neighbour idiom"}[idiomA])
 	case whyB != "":
